@@ -243,6 +243,7 @@ inductive Expr (α : Type) where
   | idx (i : Int)
   | un (m : Bytes) (e : Expr α)
   | bin (op : Bytes) (l r : Expr α)
+  deriving DecidableEq
 
 def Expr.ofAtom {α : Type} : Atom α → Expr α
   | .num v => .val v
